@@ -22,6 +22,7 @@ class SimCfg(ctypes.Structure):
         ("team_limit", ctypes.c_int),
         ("max_steps", ctypes.c_uint64),
         ("window_fn", ctypes.c_uint64),
+        ("flags", ctypes.c_uint64),
     ]
 
 
@@ -72,7 +73,7 @@ class Sim:
         self._keep = None
         self._syms = None
 
-    def begin(self, seed, nthreads=1, strategy="rtc_id", chunk_shuffle=0, preempt_mean=0, window_pct=100, poison=0, record=False, max_steps=0, replay=None, window_fn=0, team_limit=0):
+    def begin(self, seed, nthreads=1, strategy="rtc_id", chunk_shuffle=0, preempt_mean=0, window_pct=100, poison=0, record=False, max_steps=0, replay=None, window_fn=0, team_limit=0, detect=False):
         cfg = SimCfg(
             int(nthreads),
             STRATS.index(strategy) if isinstance(strategy, str) else int(strategy),
@@ -84,6 +85,7 @@ class Sim:
             int(team_limit),
             int(max_steps),
             int(window_fn),
+            1 if detect else 0,
         )
         self.lib.simgomp_begin(ctypes.c_uint64(seed & ((1 << 64) - 1)), ctypes.byref(cfg))
         if replay is not None:
@@ -102,6 +104,17 @@ class Sim:
         out["error_msg"] = buf.value.decode(errors="replace")
         out["replay_diverged"] = int(self.lib.simgomp_replay_diverged())
         self._keep = None
+        return out
+
+    def conflicts(self):
+        """region functions in which the detector saw two threads touch one word in one
+        synchronisation epoch (at least one write): [{off, count, ww, rw}]"""
+        L = self.lib
+        out = []
+        for i in range(int(L.simgomp_nconflicts())):
+            off, cnt, ww, rw = ctypes.c_uint64(), ctypes.c_uint64(), ctypes.c_uint64(), ctypes.c_uint64()
+            L.simgomp_conflict(i, ctypes.byref(off), ctypes.byref(cnt), ctypes.byref(ww), ctypes.byref(rw))
+            out.append({"off": off.value, "count": cnt.value, "ww": ww.value, "rw": rw.value})
         return out
 
     def trace(self):
